@@ -302,3 +302,171 @@ Proof.
     destruct (ceil_exact Debug a W X K) as [r [Hr _]]. rewrite Hr in Hs. discriminate.
   - intros K. exists P_OVERFLOW. now apply ceil_known_panics.
 Qed.
+
+(* ============================================================ round 284-291 *)
+(* nr:208-241.  What the code computes: trunc, moved one step away from zero when the
+   unsigned fractional part is >= 1/2.  That is rounding half AWAY FROM ZERO
+   (R7RS `round` rounds to even on ties: see Qround_even and round_differs_r7rs). *)
+Definition round_away_z (n d : Z) : Z :=
+  let q := Z.quot n d in
+  if d <=? 2 * Z.abs (Z.rem n d) then (if n <? 0 then q - 1 else q + 1) else q.
+
+(* sign(x) * floor(|x| + 1/2) *)
+Definition Qround_away (x : Q) : Z := Z.sgn (Qnum x) * Qfloor (Qabs x + (1 # 2)).
+(* R7RS: nearest integer, ties to even *)
+Definition Qround_even (x : Q) : Z :=
+  let f := Qfloor (x + (1 # 2)) in
+  if Qeq_bool (x + (1 # 2)) (inject_Z f) && Z.odd f then f - 1 else f.
+
+Lemma gcd_rem n d : Z.gcd (Z.rem n d) d = Z.gcd n d.
+Proof.
+  pose proof (Z.quot_rem' n d) as E.
+  replace (Z.rem n d) with (n + (- Z.quot n d) * d) by lia.
+  rewrite Z.gcd_comm, Z.gcd_add_mult_diag_r. apply Z.gcd_comm.
+Qed.
+
+Lemma half_up a d : 0 <= a -> 0 < d ->
+  (2 * a + d) / (2 * d) = if d <=? 2 * (a mod d) then a / d + 1 else a / d.
+Proof.
+  intros Ha Pd. pose proof (Z.div_mod a d ltac:(lia)) as DM. pose proof (Z.mod_pos_bound a d Pd) as MB.
+  destruct (Z.leb_spec d (2 * (a mod d))); symmetry.
+  - apply Z.div_unique with (2 * (a mod d) - d); lia.
+  - apply Z.div_unique with (2 * (a mod d) + d); lia.
+Qed.
+
+Lemma round_away_z_spec n d : 0 < d -> round_away_z n d = Qround_away (n # Z.to_pos d).
+Proof.
+  intros Pd. unfold Qround_away, Qabs, Qplus, Qfloor. cbn [Qnum Qden].
+  rewrite Pos2Z.inj_mul, Z2Pos.id by exact Pd.
+  replace (Z.abs n * 2 + 1 * d) with (2 * Z.abs n + d) by ring.
+  replace (d * 2) with (2 * d) by ring.
+  rewrite half_up by lia. unfold round_away_z.
+  destruct (Z.ltb_spec n 0) as [Nn|Nn].
+  - remember (- n) as a eqn:Ea. assert (En : n = - a) by lia. subst n. assert (Pa : 0 < a) by lia.
+    rewrite Z.sgn_neg by lia. rewrite Z.quot_opp_l, Z.rem_opp_l by lia. rewrite !Z.abs_opp.
+    rewrite (Z.abs_eq a) by lia.
+    rewrite Z.quot_div_nonneg, Z.rem_mod_nonneg by lia.
+    rewrite (Z.abs_eq (a mod d)) by (apply Z.mod_pos_bound; lia).
+    destruct (d <=? 2 * (a mod d)); lia.
+  - rewrite (Z.abs_eq n) by lia. rewrite Z.quot_div_nonneg, Z.rem_mod_nonneg by lia.
+    rewrite (Z.abs_eq (n mod d)) by (apply Z.mod_pos_bound; lia).
+    destruct (Z.eq_dec n 0) as [->|N0].
+    + rewrite Z.mod_0_l, Z.div_0_l by lia. cbn [Z.sgn Z.mul]. destruct (Z.leb_spec d 0); lia.
+    + rewrite Z.sgn_pos by lia. destruct (d <=? 2 * (n mod d)); lia.
+Qed.
+
+Lemma rround_wf p n d : rwfb n d = true -> rround p W32 (n, d) = Ok (round_away_z n d, 1).
+Proof.
+  intros W. destruct (rwfb_parts _ _ W) as [Hn [Hd [Pd G]]].
+  pose proof Hn as Bn. pose proof Hd as Bd. apply i32_bounds in Bn. apply i32_bounds in Bd.
+  pose proof (Z.quot_rem' n d) as QR. pose proof (Z.rem_bound_abs n d ltac:(lia)) as RB.
+  assert (S1 : 0 <= n -> 0 <= Z.rem n d) by (intros; apply Z.rem_nonneg; lia).
+  assert (S2 : n <= 0 -> Z.rem n d <= 0) by (intros; apply Z.rem_nonpos; lia).
+  assert (Gm : Z.gcd (Z.rem n d) d = 1) by (now rewrite gcd_rem).
+  unfold round_away_z.
+  set (m := Z.rem n d) in *. set (q := Z.quot n d) in *.
+  assert (Hm : in_i32 m = true) by (apply i32_bounds; lia).
+  unfold rround, rfract. cbn [fst snd]. rewrite irem_ok by lia. fold m. cbn [bind].
+  rewrite rlt_zero by assumption. cbn [bind].
+  assert (FR : (if m <? 0 then rsub p W32 rzero (m, d) else @Ok ratio (m, d)) = Ok (Z.abs m, d)).
+  { destruct (Z.ltb_spec m 0) as [Mn|Mn]; [|now rewrite Z.abs_eq by lia].
+    assert (D1 : d <> 1) by (intros E; subst d; unfold m in Mn; rewrite Z.rem_1_r in Mn; lia).
+    unfold rsub, rarith, rzero. destruct (Z.eqb_spec 1 d); [lia|].
+    unfold ilcm. cbn [Z.eqb andb].
+    rewrite igcd_spec; try assumption; try reflexivity; try (unfold W32; lia).
+    2:{ unfold gcd_safe. rewrite imin_W32. lia. }
+    rewrite Z.gcd_1_l. cbn [bind]. rewrite idiv_ok by lia. cbn [bind]. rewrite Z.quot_1_r.
+    unfold imul. rewrite Z.mul_1_l, ovf_ok by exact Hd. cbn [bind].
+    unfold iabs. destruct (Z.ltb_spec d 0); [lia|]. cbn [bind].
+    rewrite idiv_ok by lia. cbn [bind]. rewrite Z.quot_1_r.
+    rewrite Z.mul_0_l, ovf_ok by reflexivity. cbn [bind].
+    rewrite idiv_ok by lia. cbn [bind]. rewrite Z.quot_same by lia.
+    rewrite Z.mul_1_r, ovf_ok by exact Hm. cbn [bind apply_aop].
+    unfold isub. rewrite ovf_ok by (apply in_int32_bounds; lia). cbn [bind].
+    unfold rnew. replace (0 - m) with (- m) by ring. rewrite rreduce_coprime; try assumption.
+    - now rewrite Z.abs_neq by lia.
+    - apply i32_bounds; lia.
+    - now rewrite Z.gcd_opp_l. }
+  rewrite FR. cbn [bind].
+  rewrite idiv_ok by lia. cbn [bind].
+  assert (HOL : (if Z.even d then Ok (Z.quot d 2 <=? Z.abs m)
+                 else do h1 <- iadd p W32 (Z.quot d 2) 1; Ok (h1 <=? Z.abs m))
+                = Ok (d <=? 2 * Z.abs m)).
+  { rewrite Z.quot_div_nonneg by lia.
+    pose proof (Z.div_mod d 2 ltac:(lia)) as DM. pose proof (Zmod_even d) as ME.
+    destruct (Z.even d).
+    - f_equal. destruct (Z.leb_spec (d / 2) (Z.abs m)); destruct (Z.leb_spec d (2 * Z.abs m)); lia.
+    - unfold iadd. rewrite ovf_ok by (apply in_int32_bounds; lia). cbn [bind]. f_equal.
+      destruct (Z.leb_spec (d / 2 + 1) (Z.abs m)); destruct (Z.leb_spec d (2 * Z.abs m)); lia. }
+  rewrite HOL. cbn [bind].
+  rewrite rtrunc_wf by assumption. fold q. cbn [bind].
+  destruct (Z.leb_spec d (2 * Z.abs m)) as [L|L]; [|reflexivity].
+  assert (D2 : 2 <= d).
+  { destruct (Z.eq_dec d 1) as [E|E]; [|lia]. exfalso. subst d. unfold m in L. rewrite Z.rem_1_r in L. lia. }
+  assert (Bq : -1073741824 <= q <= 1073741824) by nia.
+  rewrite rge_zero by assumption. cbn [bind].
+  destruct (Z.ltb_spec n 0) as [Nn|Nn]; cbn [negb].
+  - unfold rsub, rarith, rone. cbn [Z.eqb Pos.eqb apply_aop].
+    unfold isub. rewrite ovf_ok by (apply in_int32_bounds; lia). cbn [bind].
+    unfold rnew. rewrite rreduce_coprime; try reflexivity; try lia.
+    + apply i32_bounds; lia. + apply Z.gcd_1_r.
+  - unfold radd, rarith, rone. cbn [Z.eqb Pos.eqb apply_aop].
+    unfold iadd. rewrite ovf_ok by (apply in_int32_bounds; lia). cbn [bind].
+    unfold rnew. rewrite rreduce_coprime; try reflexivity; try lia.
+    + apply i32_bounds; lia. + apply Z.gcd_1_r.
+Qed.
+
+Lemma round_away_z_i32 n d : in_i32 n = true -> 0 < d -> in_i32 (round_away_z n d) = true.
+Proof.
+  intros Hn Pd. unfold round_away_z.
+  pose proof (quot_i32 n d Hn Pd) as Hq. apply i32_bounds in Hn. apply i32_bounds in Hq. apply i32_bounds.
+  pose proof (Z.quot_rem' n d) as QR. pose proof (Z.rem_bound_abs n d ltac:(lia)) as RB.
+  assert (S1 : 0 <= n -> 0 <= Z.rem n d) by (intros; apply Z.rem_nonneg; lia).
+  assert (S2 : n <= 0 -> Z.rem n d <= 0) by (intros; apply Z.rem_nonpos; lia).
+  destruct (Z.leb_spec d (2 * Z.abs (Z.rem n d))) as [L|L]; [|lia].
+  assert (D2 : 2 <= d).
+  { destruct (Z.eq_dec d 1) as [E|E]; [|lia]. exfalso. subst d. rewrite Z.rem_1_r in L. lia. }
+  destruct (Z.ltb_spec n 0); nia.
+Qed.
+
+(* round never panics and never overflows on a well-formed Rational32 *)
+Theorem round_exact p a : wfb a = true -> is_exact a = true ->
+  exists r, num_round p a = Ok r /\ is_exact r = true /\ wfb r = true /\
+    int_of r = Some (Qround_away (qv a)).
+Proof.
+  intros W X. destruct a as [z|z|n d|f]; try discriminate; cbn [num_round].
+  - eexists. split; [reflexivity|]. split; [reflexivity|]. split; [exact W|].
+    cbn [int_of qv]. f_equal. change (inject_Z z) with (z # Z.to_pos 1).
+    rewrite <- round_away_z_spec by lia. unfold round_away_z. rewrite Z.rem_1_r, Z.quot_1_r. reflexivity.
+  - eexists. split; [reflexivity|]. split; [reflexivity|]. split; [exact W|].
+    cbn [int_of qv]. f_equal. change (inject_Z z) with (z # Z.to_pos 1).
+    rewrite <- round_away_z_spec by lia. unfold round_away_z. rewrite Z.rem_1_r, Z.quot_1_r. reflexivity.
+  - cbn [wfb] in W. destruct (rwfb_parts _ _ W) as [Hn [Hd [Pd G]]].
+    rewrite rround_wf by exact W. cbn [bind]; unfold r32; cbn [fst snd].
+    eexists. split; [reflexivity|]. split; [reflexivity|]. split.
+    + apply wfb_int_ratio. now apply round_away_z_i32.
+    + rewrite int_of_ratio1. cbn [qv]. now rewrite round_away_z_spec.
+Qed.
+
+(* FINDING (kept as is by the "num" package, now with a machine-checked witness): on the exact
+   tie 5/2 the code answers 3; R7RS (round to even) demands 2.  Same for 1/2 -> 1 (R7RS 0) and
+   -5/2 -> -3 (R7RS -2); 7/2 -> 4 agrees. *)
+Theorem round_differs_r7rs : forall p,
+  num_round p (Rational 5 2) = Ok (Rational 3 1) /\ Qround_even (qv (Rational 5 2)) = 2 /\
+  num_round p (Rational 1 2) = Ok (Rational 1 1) /\ Qround_even (qv (Rational 1 2)) = 0 /\
+  num_round p (Rational (-5) 2) = Ok (Rational (-3) 1) /\ Qround_even (qv (Rational (-5) 2)) = -2 /\
+  num_round p (Rational 7 2) = Ok (Rational 4 1) /\ Qround_even (qv (Rational 7 2)) = 4.
+Proof. intros []; repeat split; vm_compute; reflexivity. Qed.
+
+(* ---- the builtin procedures (builtin/number.rs 364-438) are these functions applied to the
+   single argument *)
+Definition unop_fn (u : unop) p (x : num) : out num :=
+  match u with
+  | UAbs => num_abs p x | UFloor => num_floor p x | UCeiling => num_ceil p x
+  | UTruncate => num_truncate x | URound => num_round p x
+  | UNumerator => Ok (num_numerator x) | UDenominator => Ok (num_denominator x)
+  | UExactInexact => do o <- num_to_inexact x; Ok (match o with Some n => n | None => x end)
+  | UInexactExact => do o <- num_to_exact p x; Ok (match o with Some n => n | None => x end)
+  end.
+Lemma b_unary_num u p x : b_unary u p [ANum x] = do r <- unop_fn u p x; Ok (RNum r).
+Proof. destruct u; reflexivity. Qed.
